@@ -34,6 +34,11 @@ func init() {
 }
 
 func runC10(c *an.Ctx) {
+	// ---- C10-R9: builder wiring of the components this property rests on
+	c.Floor("C10-R9", 1)
+	builderWiring(c, "C10-R9", map[string][]string{
+		"initDNS|dnssvc.HandlersConfig": {"AccessManager", "GeoIP"},
+	})
 	c10AccessCodec(c)
 	// ---- R7: the location handed to the access check is not an object shared with the GeoIP cache that later code modifies
 	c.Floor("C10-R7", 1)
@@ -361,7 +366,7 @@ func c10Access(c *an.Ctx) {
 	c.Floor("C10-R6", 6)
 	verdict := func(fnKey, engine string) {
 		decide(c, "C10-R6", fnKey, an.DecideCfg{
-			Dom: an.Domain{"matched": an.Bools, "res.NetworkRule": {an.Nil(), an.NonNil("rule")}, "rule.Whitelist": an.Bools},
+			Dom:    an.Domain{"matched": an.Bools, "res.NetworkRule": {an.Nil(), an.NonNil("rule")}, "rule.Whitelist": an.Bools},
 			Inline: func(f *ssa.Function) bool { return false },
 			OnCall: func(it *an.Interp, name string, args []an.AV) (an.AV, bool) {
 				switch {
